@@ -161,6 +161,10 @@ pub fn replay(kind: &str, case: &Value) -> Result<(), String> {
             let p: persist::Point = serde_json::from_value(case.clone()).map_err(|e| format!("bad case: {e}"))?;
             persist::check_point(&p).map(|_| ()).map_err(|v| format!("[{}] {}", v.key, v.msg))
         }
+        "rollback-lattice" => {
+            let p: persist::RbPoint = serde_json::from_value(case.clone()).map_err(|e| format!("bad case: {e}"))?;
+            persist::check_rollback_point(&p).map(|_| ()).map_err(|v| format!("[{}] {}", v.key, v.msg))
+        }
         "guard" => persist::check_commit_guard(case["status"].as_u64().unwrap_or(0) as u8).map(|_| ()).map_err(|v| format!("[{}] {}", v.key, v.msg)),
         "conformance" => persist::conformance_values(case["n"].as_u64().unwrap_or(0) as usize).map(|_| ()).map_err(|v| format!("[{}] {}", v.key, v.msg)),
         _ => Err(format!("unknown replay kind {kind}")),
@@ -187,6 +191,7 @@ pub fn run(args: &Args) -> i32 {
     run.assume("per advance_migration call at most one transaction's oracle answer deviates from the default (marks accumulate over calls); deviating answers are explored only for transactions the engine actually asks about in that call (for every other victim the call is identical by construction) and only at lead 0");
     run.assume("the RNG passed to advance_migration is a script owned by the explorer (anchor age 1 or 2 on the overdue-shift redraw); other draws are not explored");
     run.assume("liveness probe: 'reported' = the drive API returns a step other than Waiting/Complete, or transaction_statuses shows Unsatisfiable/Expired/AwaitingReevaluation; waiting on an in-flight unexpired transaction or on an external signature is not a silent hold; a Waiting whose outlook names a later height is followed to that height");
+    run.assume("wallet-driven rollback: the stored migration after WalletWrite::truncate_to_height must equal MigrationState::truncate_to_height(achieved) of the saved state, except that the store's truncation walk documents the policy-terminal statuses (failed/superseded/cancelled) as left untouched, so for those the expected stored state is the saved one; rewind_to_chain_state ends in the same truncate_to_height_internal and is not driven separately; MockBackend has no rollback entry point");
     run.assume(&format!("the explored space: event sequences of the stated depth in which at most {} events follow the migration reaching a terminal status (every event is still executed and checked from every terminal state that is expanded)", model::TERM_FOLLOW));
 
     // ---------------------------------------------------------------- lifecycle exploration
@@ -224,7 +229,7 @@ pub fn run(args: &Args) -> i32 {
     let mut outcomes: BTreeMap<String, u64> = BTreeMap::new();
     let mut per_group = Vec::new();
     let mut best: BTreeMap<String, (usize, usize, String, Value)> = BTreeMap::new();
-    let (mut adv_calls, mut mock_calls, mut probes, mut persists) = (0u64, 0u64, 0u64, 0u64);
+    let (mut adv_calls, mut mock_calls, mut probes, mut persists, mut wallet_rollbacks) = (0u64, 0u64, 0u64, 0u64, 0u64);
     for (gi, r) in results.iter().enumerate() {
         run.add_graph(r.states, r.transitions, r.transitions);
         run.eval_distinct(r.states);
@@ -235,6 +240,7 @@ pub fn run(args: &Args) -> i32 {
         mock_calls += r.counters.mock_calls;
         probes += r.counters.probe_runs;
         persists += r.counters.persist_runs;
+        wallet_rollbacks += r.counters.wallet_rollbacks;
         if let Some(c) = &r.capped {
             run.cap_hit(&format!("{:?}/{}/{}: {c}; states {}, states expanded per depth {:?}", r.dag, PROFILES[r.profile as usize].name, r.pass, r.states, r.per_depth));
         }
@@ -268,6 +274,7 @@ pub fn run(args: &Args) -> i32 {
             "advance_migration_calls_on_mockbackend": mock_calls,
             "liveness_probes": probes,
             "sqlite_roundtrips_of_explored_states": persists,
+            "wallet_driven_rollbacks_of_explored_rollback_events": wallet_rollbacks,
             "explored_state_persistence": {"deep": format!("{persist_deep:?}"), "broad": format!("{persist_broad:?}")},
             "terminal_follow_events": model::TERM_FOLLOW,
             "heights": {"initial_tip": model::T0, "anchor_grid": model::INTERVAL, "tip_max": model::TIP_MAX, "rollback_floor": model::FLOOR,
@@ -329,6 +336,31 @@ pub fn run(args: &Args) -> i32 {
         run.fail("lattice", k, format!("{msg} [first of {n} lattice points: {}]", points[i].label()), serde_json::to_value(&points[i]).unwrap());
     }
     run.sample(json!({"lattice_point_example": points[points.len() / 2], "label": points[points.len() / 2].label()}));
+    // Wallet-driven rollback commutes with the in-memory rollback, on the rollback lattice.
+    let rb_points = persist::rollback_points();
+    let rb: Vec<(usize, Result<&'static str, Viol>)> = pool.install(|| rb_points.par_iter().enumerate().map(|(i, p)| (i, persist::check_rollback_point(p))).collect());
+    run.eval_distinct(rb_points.len() as u64);
+    let mut rb_fail: BTreeMap<String, (usize, String, usize)> = BTreeMap::new();
+    for (i, r) in rb {
+        match r {
+            Ok(o) => *outcomes.entry(format!("lattice:{o}")).or_insert(0) += 1,
+            Err(v) => {
+                if v.key == "machinery" {
+                    mc_core::machinery_error(&format!("C18 rollback lattice: {}", v.msg));
+                }
+                let e = rb_fail.entry(v.key.clone()).or_insert((i, v.msg.clone(), 0));
+                e.2 += 1;
+                if i < e.0 {
+                    e.0 = i;
+                    e.1 = v.msg.clone();
+                }
+            }
+        }
+    }
+    for (k, (i, msg, n)) in rb_fail {
+        run.fail("rollback-lattice", k, format!("{msg} [first of {n} rollback-lattice points: {}]", rb_points[i].label()), serde_json::to_value(&rb_points[i]).unwrap());
+    }
+    run.sample(json!({"rollback_lattice_point_example": rb_points[rb_points.len() / 3], "label": rb_points[rb_points.len() / 3].label()}));
     for status in 0..7u8 {
         run.eval_distinct(1);
         match persist::check_commit_guard(status) {
@@ -346,7 +378,7 @@ pub fn run(args: &Args) -> i32 {
         Ok(n) => *outcomes.entry("conformance-suite-on-generated-state".into()).or_insert(0) += n as u64,
         Err(v) => run.fail("conformance", v.key, v.msg, json!({"n": n_conf})),
     }
-    run.section("persistence", json!({"lattice_points": points.len(), "plan_shapes": plans, "commit_guard_statuses": 7, "generated_states_through_conformance_suite": n_conf}));
+    run.section("persistence", json!({"rollback_lattice_points": rb_points.len(), "rollback_lattice": "status x {4 unmined states, Mined at H-1/H/H+1/H+2} x {no mark, mark at H-1..H+2} x {no report, report at H-1..H+2}; save, WalletWrite::truncate_to_height(H) on the wallet owning the store, load, compare with MigrationState::truncate_to_height(achieved)", "lattice_points": points.len(), "plan_shapes": plans, "commit_guard_statuses": 7, "generated_states_through_conformance_suite": n_conf}));
     let t_persist = run.elapsed();
 
     // ---------------------------------------------------------------- second engine
@@ -388,7 +420,8 @@ pub fn run(args: &Args) -> i32 {
             "consumer:broadcast-ok-not-recorded", "consumer:late-record-on-Mined", "consumer:late-record-on-Proved", "consumer:late-record-on-Broadcast",
             "chain:rollback-unmines", "status:Complete->InProgress", "reached-terminal:Complete", "reached-terminal:Cancelled", "reached-terminal:Superseded",
             "probe-end:Waiting", "probe-end:Rebuild", "probe-end:Replan", "targets:estimate-ahead",
-            "lattice:terminal+successor", "lattice:live-replaced-in-place", "guard:refused-live", "guard:admitted-after-terminal",
+            "lattice:terminal+successor", "lattice:live-replaced-in-place", "lattice:wallet-rollback:rolled-back", "lattice:wallet-rollback:unchanged",
+            "wallet-rollback:rolled-back", "wallet-rollback:unchanged", "guard:refused-live", "guard:admitted-after-terminal",
         ] {
             run.require(outcomes.contains_key(must), &format!("outcome '{must}' never observed"));
         }
